@@ -488,4 +488,127 @@ theorem recognize_shape {b : Body} {k : Kernel} (h : recognize true b = some k) 
   have : 1 ≤ k.nOperands := by cases k <;> simp [Kernel.nOperands]
   omega
 
+/-! ## pipeline helpers -/
+
+theorem take_append_getLastD : ∀ (l : List Nat), l ≠ [] → l.take (l.length - 1) ++ [l.getLastD 0] = l
+  | [], h => absurd rfl h
+  | [a], _ => rfl
+  | a :: b :: t, _ => by
+    have ih := take_append_getLastD (b :: t) (by simp)
+    simp only [List.length_cons, Nat.add_sub_cancel, List.take_succ_cons, List.cons_append, List.cons.injEq, true_and]
+    simp only [List.length_cons, Nat.add_sub_cancel] at ih
+    simpa [List.getLastD] using ih
+
+theorem KBody.toMBody_inj {a b : KBody} (h : a.toMBody = b.toMBody) : a = b := by
+  cases a; cases b
+  simp only [KBody.toMBody, MBody.mk.injEq, List.cons.injEq, MOp.kern.injEq, and_true] at h
+  obtain ⟨h1, ⟨h2, h3, h4, h5⟩, h6⟩ := h
+  subst h1 h2 h3 h4 h5 h6
+  rfl
+
+
+/-! ## the matcher's dictionary is the identity on value numbers -/
+
+theorem initMap_self (n : Nat) : initMap n n = idMap n := by
+  funext i; simp [initMap, idMap]
+
+theorem updMap_idMap (k : Nat) : updMap (idMap k) k k = idMap (k + 1) := by
+  funext i
+  simp only [updMap, idMap]
+  by_cases h : i = k
+  · simp [h]
+  · have : (i < k + 1) = (i < k) := by simp; omega
+    simp [h, this]
+
+theorem refGet_idMap_iff {k : Nat} {r' r : Ref} (hr : scopedRefs k [r] = true) :
+    refGet (idMap k) r' = some r ↔ mapRef r' = some r := by
+  cases r' with
+  | outer w c => simp [refGet, mapRef]
+  | val i =>
+    simp only [refGet, mapRef, idMap]
+    constructor
+    · intro h
+      by_cases hi : i < k
+      · simpa [hi] using h
+      · simp [hi] at h
+    · intro h
+      simp only [Option.some.injEq] at h
+      subst h
+      simp [scopedRefs] at hr
+      simp [hr]
+
+theorem map_refGet_iff {k : Nat} : ∀ {l' l : List Ref}, scopedRefs k l = true →
+    (l'.map (refGet (idMap k)) = l.map some ↔ l'.map mapRef = l.map some)
+  | [], [], _ => by simp
+  | [], _ :: _, _ => by simp
+  | _ :: _, [], _ => by simp
+  | r' :: l', r :: l, h => by
+    have h1 : scopedRefs k [r] = true := by simp [scopedRefs] at h ⊢; exact h.1
+    have h2 : scopedRefs k l = true := by simp [scopedRefs] at h ⊢; exact h.2
+    simp only [List.map_cons, List.cons.injEq, refGet_idMap_iff h1, map_refGet_iff h2]
+
+theorem scopedRefs_reverse (k : Nat) (l : List Ref) : scopedRefs k l.reverse = scopedRefs k l := by
+  simp [scopedRefs, List.all_reverse]
+
+theorem opMatchDict_idMap {k : Nat} {a b : BOp} (hb : scopedRefs k b.args = true) :
+    opMatchDict (idMap k) a b = opMatch true a b := by
+  have e1 : (a.args.map (refGet (idMap k)) == b.args.map some) = (a.args.map mapRef == b.args.map some) := by
+    rw [Bool.eq_iff_iff]; simp only [beq_iff_eq]; exact map_refGet_iff hb
+  have e2 : ((a.args.map (refGet (idMap k))).reverse == b.args.map some) =
+      ((a.args.map mapRef).reverse == b.args.map some) := by
+    rw [Bool.eq_iff_iff]; simp only [beq_iff_eq]
+    rw [← List.map_reverse, ← List.map_reverse]
+    constructor
+    · intro h
+      have := (map_refGet_iff (l' := a.args.reverse) (l := b.args) hb).mp h
+      exact this
+    · intro h
+      exact (map_refGet_iff (l' := a.args.reverse) (l := b.args) hb).mpr h
+  simp [opMatchDict, opMatch, e1, e2]
+
+theorem opsMatchDict_idMap : ∀ (k : Nat) (as bs : List BOp), scopedOps k bs = true →
+    opsMatchDict (idMap k) k k as bs = if all2 (opMatch true) as bs then some (idMap (k + as.length)) else none
+  | k, [], [], _ => by simp [opsMatchDict, all2]
+  | k, [], _ :: _, _ => by simp [opsMatchDict, all2]
+  | k, _ :: _, [], _ => by simp [opsMatchDict, all2]
+  | k, a :: as, b :: bs, h => by
+    simp only [scopedOps, Bool.and_eq_true] at h
+    simp only [opsMatchDict, opMatchDict_idMap h.1, updMap_idMap, all2]
+    by_cases hm : opMatch true a b = true
+    · simp only [hm, if_true, Bool.true_and]
+      rw [opsMatchDict_idMap (k + 1) as bs h.2]
+      simp [Nat.add_assoc, Nat.add_comm 1]
+    · simp [hm]
+
+
+/-- the kernel regions are in SSA form (for the argument count the pass builds them with) -/
+theorem region_wellScoped (k : Kernel) (tys : List Nat) (h : tys.length = k.nOperands + 1) :
+    (equivalentRegion k tys).wellScoped = true := by
+  cases k <;> simp only [Kernel.nOperands] at h
+  · rcases tys with _ | ⟨a, _ | ⟨b, _ | ⟨c, _ | ⟨d, t⟩⟩⟩⟩ <;> simp at h
+    simp [equivalentRegion, Body.wellScoped, scopedOps, scopedRefs]
+  · rcases tys with _ | ⟨a, _ | ⟨b, _ | ⟨c, _ | ⟨d, t⟩⟩⟩⟩ <;> simp at h
+    simp [equivalentRegion, Body.wellScoped, scopedOps, scopedRefs]
+  · rcases tys with _ | ⟨a, _ | ⟨b, _ | ⟨c, _ | ⟨d, t⟩⟩⟩⟩ <;> simp at h
+    simp only [equivalentRegion, List.getD_cons_zero, List.getD_cons_succ]
+    split <;> simp [Body.wellScoped, scopedOps, scopedRefs]
+  · rcases tys with _ | ⟨a, _ | ⟨b, _ | ⟨za, _ | ⟨zb, _ | ⟨c, _ | ⟨d, t⟩⟩⟩⟩⟩⟩ <;> simp at h
+    simp [equivalentRegion, Body.wellScoped, scopedOps, scopedRefs]
+  · rcases tys with _ | ⟨a, _ | ⟨b, _ | ⟨c, t⟩⟩⟩ <;> simp at h
+    simp [equivalentRegion, Body.wellScoped, scopedOps, scopedRefs]
+
+
+theorem findAccFixed_some {k : Kernel} {tys : List Nat} {a : Acc} : ∀ {l : List Acc},
+    findAccFixed k tys l = some a → a ∈ l ∧ matchSupportedFixed k tys a.supported = true
+  | [], h => by simp [findAccFixed] at h
+  | x :: rest, h => by
+    unfold findAccFixed at h
+    split at h
+    · next hm =>
+      simp only [Option.some.injEq] at h
+      subst h
+      exact ⟨by simp, hm⟩
+    · obtain ⟨h1, h2⟩ := findAccFixed_some h
+      exact ⟨by simp [h1], h2⟩
+
 end SnaxVerif.Kernel
